@@ -210,3 +210,263 @@ func ruleQuantizeIntermediateMaxExponent(w *World, r *RuleResult) {
 		r.ok("(*Context).quantize | intermediate rounding context: MaxExponent", w.pos(f.Pos()), "quantize does not call Rounder.Round: this shape is not decided", false)
 	}
 }
+
+func init() {
+	register(&Rule{ID: "C07.R10", Min: 1,
+		Text: "an operand copied whole into the destination of a rounding operation is rounded to the precision, not just range-checked: from every d.Set(x)/d.Abs(x)/d.Neg(x) whose source is an operand that may be finite and non-zero, every path to a result-delivering return passes a call that reaches Rounder.Round with that destination (Rem(12345, Inf) at Precision 1 must be 1E+4; a setExponent call alone enforces the exponent range only)",
+		Run:  ruleOperandCopiesAreRounded})
+}
+
+func ruleOperandCopiesAreRounded(w *World, r *RuleResult) {
+	if !r.need(w, rounderRound) {
+		return
+	}
+	roundReach := w.reachesFn(rounderRound)
+	n := 0
+	for _, name := range rangeOps {
+		f := w.fn(name)
+		if f == nil {
+			continue
+		}
+		if ex := rangeExceptions[name]; ex != nil && ex["*"] != "" {
+			continue
+		}
+		switch name {
+		case "(*Context).RoundToIntegralExact", "(*Context).RoundToIntegralValue", "(*Context).Quantize":
+			continue // no digit limit (C09), or the limit is a NaN condition of its own (C09.R3)
+		}
+		roles := w.roles(f)
+		di := -1
+		for i, p := range f.Params {
+			if roles[i] == RoleDest && isDecimalPtr(p.Type()) {
+				di = i
+			}
+		}
+		if di < 0 {
+			continue
+		}
+		p := w.newProv(f, nil)
+		isDest := func(v ssa.Value) bool {
+			for _, l := range p.roots(v) {
+				if l.Root.Kind == RParam && l.Root.Param == di {
+					return true
+				}
+			}
+			return false
+		}
+		for _, c := range callsIn(f) {
+			call, ok := c.(*ssa.Call)
+			if !ok {
+				continue
+			}
+			switch w.calleeName(call) {
+			case "(*Decimal).Set", "(*Decimal).setSlow", "(*Decimal).Abs", "(*Decimal).Neg":
+			default:
+				continue
+			}
+			args := call.Common().Args
+			if len(args) < 2 || !isDest(args[0]) {
+				continue
+			}
+			// only copies of an operand of the operation (a parameter other than the destination)
+			fromOperand := false
+			for _, l := range p.roots(args[1]) {
+				if l.Root.Kind == RParam && l.Root.Param != di && roles[l.Root.Param] == RoleOperand {
+					fromOperand = true
+				}
+			}
+			if !fromOperand || w.copySourceFits(f, call) {
+				continue
+			}
+			n++
+			key := fmt.Sprintf("%s | operand copy is rounded", name)
+			if k := countKey(r, key); k > 0 {
+				key = fmt.Sprintf("%s #%d", key, k+1)
+			}
+			ev := func(in ssa.Instruction) bool {
+				u, isCall := in.(*ssa.Call)
+				if !isCall {
+					return false
+				}
+				g := callee(u)
+				if g == nil || !w.inPkg(g) || !roundReach[g] {
+					return false
+				}
+				for _, a := range u.Common().Args {
+					if pointerLike(a.Type()) && isDest(a) {
+						return true
+					}
+				}
+				return false
+			}
+			ok2, ret := mustPassFrom(call, ev, func(rt *ssa.Return) bool { return w.isErrorReturn(rt) })
+			if ok2 {
+				r.ok(key, w.instrPos(call), "every path from the copy to a result-delivering return passes a call reaching Rounder.Round on the destination", true)
+			} else {
+				r.bad(key, w.instrPos(call), fmt.Sprintf("the operand copied here reaches the return at %s without a call reaching Rounder.Round on the destination: its digits are not limited to the precision (a setExponent call alone only checks the exponent range)", w.instrPos(ret)))
+			}
+		}
+	}
+	if n == 0 {
+		r.ok("rounding operations | operand copies", "", "no rounding operation copies a possibly finite operand into its destination itself (they hand the operand to round/Rounder.Round): nothing to decide", false)
+	}
+}
+
+func init() {
+	register(&Rule{ID: "C11.R6", Min: 2,
+		Text: "the exact location of the root is skipped only for Precision 0: on every path from the entry of Sqrt and Cbrt to the rounding that delivers the result, the candidate was compared exactly with the operand (cmpPower, directly or in a helper of theirs), or the path left a test of c.Precision against 0 on the zero side — a location that is also skipped by the operand's digit count rounds the Newton approximation itself, which is wrong next to midpoints (Sqrt(999999) at Precision 6 = 1000.00)",
+		Run:  ruleRootLocationAlways})
+}
+
+func ruleRootLocationAlways(w *World, r *RuleResult) {
+	cmp := w.fn("cmpPower")
+	if cmp == nil {
+		r.anchorMissing("cmpPower")
+		return
+	}
+	reachCmp := w.reachesFn("cmpPower")
+	for _, name := range []string{"(*Context).Sqrt", "(*Context).Cbrt"} {
+		f := w.fn(name)
+		if f == nil {
+			r.anchorMissing(name)
+			continue
+		}
+		roles := w.roles(f)
+		di := -1
+		for i, p := range f.Params {
+			if roles[i] == RoleDest && isDecimalPtr(p.Type()) {
+				di = i
+			}
+		}
+		if di < 0 {
+			r.anchorMissing(name + ": destination")
+			continue
+		}
+		p := w.newProv(f, nil)
+		isDest := func(v ssa.Value) bool {
+			for _, l := range p.roots(v) {
+				if l.Root.Kind == RParam && l.Root.Param == di {
+					return true
+				}
+			}
+			return false
+		}
+		// the delivering roundings: calls reaching Rounder.Round whose destination is d
+		roundReach := w.reachesFn(rounderRound)
+		var finals []*ssa.Call
+		for _, c := range callsIn(f) {
+			call, ok := c.(*ssa.Call)
+			if !ok {
+				continue
+			}
+			g := callee(call)
+			if g == nil || !w.inPkg(g) || !roundReach[g] || reachCmp[g] {
+				continue
+			}
+			if strings.HasSuffix(g.Name(), "Specials") {
+				continue // the special-value prologue delivers operands that have no root to locate
+			}
+			gi := destArgIndex(w, g)
+			if gi < 0 || gi >= len(call.Common().Args) || !isDest(call.Common().Args[gi]) {
+				continue
+			}
+			finals = append(finals, call)
+		}
+		if len(finals) == 0 {
+			r.ok(name+" | root located before the final rounding", w.pos(f.Pos()), "no rounding call on the destination in this function: this shape is not decided", false)
+			continue
+		}
+		// forward must-analysis: located[b] = on every path to the start of b the root was located or Precision is 0
+		n := len(f.Blocks)
+		in := make([]int, n) // -1 unknown, 0 no, 1 yes
+		for i := range in {
+			in[i] = -1
+		}
+		in[0] = 0
+		locates := func(x ssa.Instruction) bool {
+			c, ok := x.(*ssa.Call)
+			if !ok {
+				return false
+			}
+			g := callee(c)
+			return g != nil && (g == cmp || w.inPkg(g) && reachCmp[g] && g != f)
+		}
+		precZeroSide := func(from, to *ssa.BasicBlock) bool {
+			iff, ok := from.Instrs[len(from.Instrs)-1].(*ssa.If)
+			if !ok || from.Succs[0] == from.Succs[1] {
+				return false
+			}
+			bo, ok := iff.Cond.(*ssa.BinOp)
+			if !ok {
+				return false
+			}
+			k, isK := bo.Y.(*ssa.Const)
+			if !isK || k.Value == nil || ci(k) != 0 || !strings.HasSuffix(w.exprOf(f, bo.X).String(), ".Precision") {
+				return false
+			}
+			ld, isLd := bo.X.(*ssa.UnOp)
+			if !isLd || ld.Op != token.MUL {
+				return false
+			}
+			if fa, isFA := ld.X.(*ssa.FieldAddr); !isFA {
+				return false
+			} else if _, isParam := fa.X.(*ssa.Parameter); !isParam {
+				return false
+			}
+			trueIsZero := bo.Op == token.EQL || bo.Op == token.LEQ
+			falseIsZero := bo.Op == token.NEQ || bo.Op == token.GTR
+			return trueIsZero && to == from.Succs[0] || falseIsZero && to == from.Succs[1]
+		}
+		out := func(b *ssa.BasicBlock, st int, upTo ssa.Instruction) int {
+			for _, x := range b.Instrs {
+				if x == upTo {
+					break
+				}
+				if locates(x) {
+					st = 1
+				}
+			}
+			return st
+		}
+		changed := true
+		for iter := 0; changed && iter < 4*n+8; iter++ {
+			changed = false
+			for _, b := range f.Blocks {
+				if b.Index != 0 {
+					v := -1
+					for _, pb := range b.Preds {
+						if in[pb.Index] == -1 {
+							continue
+						}
+						o := out(pb, in[pb.Index], nil)
+						if precZeroSide(pb, b) {
+							o = 1
+						}
+						if v == -1 || o < v {
+							v = o
+						}
+					}
+					if v != in[b.Index] {
+						in[b.Index] = v
+						changed = true
+					}
+				}
+			}
+		}
+		for i, fc := range finals {
+			key := name + " | root located before the final rounding"
+			if i > 0 {
+				key = fmt.Sprintf("%s #%d", key, i+1)
+			}
+			st := in[fc.Block().Index]
+			if st >= 0 {
+				st = out(fc.Block(), st, fc)
+			}
+			if st == 1 {
+				r.ok(key, w.instrPos(fc), "every path to this rounding compared the candidate exactly with the operand, or is taken only with Precision 0", true)
+			} else {
+				r.bad(key, w.instrPos(fc), "a path reaches this rounding without the exact comparison of the candidate with the operand although Precision is not 0: on that path the Newton approximation itself is rounded (wrong next to midpoints and exactly representable roots)")
+			}
+		}
+	}
+}
